@@ -700,12 +700,53 @@ func one(r *vk.Run, c Case, kind, n, step int, prog []model.Node, src string, ex
 		return nil
 	}
 	if res.Err != nil {
+		if om, ok := mdata["xs"].(*model.OrderedMap); ok && ik.isMap && len(om.Keys) > 1 {
+			// the visiting order cannot be read off a failed render. It is a violation only if NO order makes the
+			// body fail (a break at one entry may hide a failure at another)
+			failing := false
+			permute(append([]interface{}(nil), om.Keys...), func(order []interface{}) bool {
+				md := map[string]interface{}{}
+				for k, v := range mdata {
+					md[k] = v
+				}
+				md["xs"] = &model.OrderedMap{Keys: order, Vals: om.Vals}
+				w := model.Run(prog, md, helpers)
+				failing = w.Err != "" || w.Unspec != ""
+				return !failing
+			})
+			if failing {
+				r.Exclude("map: render failed and the reference fails under some visiting order")
+				return nil
+			}
+		}
 		return fail("render failed (%v), reference output %q", res.Err, want.Out)
 	}
 	if !match.SameText(res.Out, want.Out) {
 		return fail("output %q, reference says %q", res.Out, want.Out)
 	}
 	return nil
+}
+
+// permute calls f with every order of keys until f returns false (at most 720 orders: maps have up to 6 entries).
+func permute(keys []interface{}, f func([]interface{}) bool) {
+	var rec func(i int) bool
+	rec = func(i int) bool {
+		if i == len(keys) {
+			return f(append([]interface{}(nil), keys...))
+		}
+		for j := i; j < len(keys); j++ {
+			keys[i], keys[j] = keys[j], keys[i]
+			ok := rec(i + 1)
+			keys[i], keys[j] = keys[j], keys[i]
+			if !ok {
+				return false
+			}
+		}
+		return true
+	}
+	if len(keys) <= 6 {
+		rec(0)
+	}
 }
 
 // firstWidened is the index of the first iterable kind added by the widening round.
@@ -752,6 +793,19 @@ func keyLit(ik iterKind, idx int) (model.Expr, bool) {
 		return model.Lit{V: idx%2 == 1}, true
 	}
 	return nil, false
+}
+
+// otherLit is a literal of the family that no collection holds.
+func otherLit(family string) model.Expr {
+	switch family {
+	case "int":
+		return model.Lit{V: 7}
+	case "string":
+		return model.Lit{V: "z7"}
+	case "bool":
+		return model.Lit{V: true}
+	}
+	return nil
 }
 
 func elemLit(ik iterKind, idx int) model.Expr {
@@ -811,8 +865,13 @@ func (g *bodyGen) ctl() model.Node {
 	return model.Code{S: model.ContinueS{}}
 }
 
+// emitV emits the value of the innermost loop or, one time in four, of an enclosing one.
 func (g *bodyGen) emitV() model.Node {
-	if f := g.top(); f.ik.readable() {
+	f := g.top()
+	if len(g.frames) > 1 && rapid.IntRange(0, 3).Draw(g.t, "outer_v") == 0 {
+		f = g.frames[rapid.IntRange(0, len(g.frames)-2).Draw(g.t, "frame_v")]
+	}
+	if f.ik.readable() {
 		return model.Emit{X: model.Var{Name: f.v}}
 	}
 	return g.text()
@@ -974,11 +1033,17 @@ func (g *bodyGen) body(depth int) []model.Node {
 			out = append(out, model.Emit{X: model.Call{Fn: fn, Args: []model.Expr{intLits(rapid.IntRange(0, 3).Draw(t, "arg_n"))}}})
 			out = append(out, model.Emit{X: model.Call{Fn: fn, Args: []model.Expr{model.Var{Name: "ys"}}}})
 		case 15: // the body rebinds a loop variable; the next iteration must bind it to the next element again
-			name := v
+			// (to a value of the same type: a comparison that follows must not fail, on a map the failure would
+			// depend on the visiting order)
+			name, fam := v, ik.elem
 			if k != "" && rapid.Bool().Draw(t, "letk") {
-				name = k
+				name, fam = k, ik.key
 			}
-			out = append(out, model.Code{S: model.LetS{Name: name, X: model.Lit{V: 7}}}, model.Emit{X: model.Var{Name: name}})
+			if lit := otherLit(fam); lit != nil {
+				out = append(out, model.Code{S: model.LetS{Name: name, X: lit}}, model.Emit{X: model.Var{Name: name}})
+			} else {
+				out = append(out, g.text())
+			}
 		}
 	}
 	return out
@@ -1031,6 +1096,14 @@ func (g *bodyGen) program(kind, n int) []model.Node {
 		return []model.Node{g.text(), outer, g.text()}
 	}
 	return []model.Node{g.text(), loop(), g.text()}
+}
+
+// rebound is what a body rebinds a loop variable to: a value of the variable's own type where the bodies compare it.
+func rebound(family string) model.Expr {
+	if lit := otherLit(family); lit != nil {
+		return lit
+	}
+	return model.Lit{V: 7}
 }
 
 // ---- fixed bodies for the exhaustive sweep ---------------------------------------------
@@ -1138,8 +1211,31 @@ func fixedBodies(ik iterKind, n int) [][]model.Node {
 		{model.Code{S: model.LetS{Name: "f", X: model.FnLit{Params: []string{"a"}, Body: []model.Node{T("("), over(model.Var{Name: "a"}, w, sif(model.Bin{Op: "==", L: model.Var{Name: "w"}, R: model.Lit{V: 20}}, brk), T(".")), T(")")}}}},
 			model.Emit{X: model.Call{Fn: "f", Args: []model.Expr{intLits(3)}}}, model.Emit{X: model.Call{Fn: "f", Args: []model.Expr{intLits(1)}}}, sif(is2, brk), T(",")},
 		// the body rebinds the loop variables
-		{v, model.Code{S: model.LetS{Name: "v", X: model.Lit{V: 7}}}, model.Emit{X: model.Var{Name: "v"}}, sif(isLast, brk), T(",")},
-		{k, model.Code{S: model.LetS{Name: "k", X: model.Lit{V: 7}}}, k, T(",")},
+		{v, model.Code{S: model.LetS{Name: "v", X: rebound(ik.elem)}}, model.Emit{X: model.Var{Name: "v"}}, sif(isLast, brk), T(",")},
+		{k, model.Code{S: model.LetS{Name: "k", X: rebound(ik.key)}}, k, T(",")},
+	}
+	// an inner loop over LITERALS whose body reads the outer loop's variable at exactly one place: whatever is kept of
+	// one execution of the inner loop (its result, its iterable, a verdict about its body) is wrong for the next
+	rd, rdE := v, model.Expr(model.Var{Name: "v"})
+	if !ik.readable() {
+		rd, rdE = k, model.Var{Name: "k"}
+	}
+	if ik.readable() || ik.key != "opaque" {
+		no, yes := model.Lit{V: false}, model.Lit{V: true}
+		lits := intLits(2)
+		out = append(out,
+			[]model.Node{over(lits, T("i"), rd), T(",")},
+			[]model.Node{over(lits, T("i"), eif(is2, T("x"))), T(",")},
+			[]model.Node{over(lits, T("i"), model.EmitIf{If: &model.If{Cond: no, Then: []model.Node{T("f")}, ElseIfs: []model.ElseIf{{Cond: is2, Then: []model.Node{T("x")}}}, HasElse: true, Else: []model.Node{T("e")}}}), T(",")},
+			[]model.Node{over(lits, T("i"), model.EmitIf{If: &model.If{Cond: no, Then: []model.Node{T("f")}, HasElse: true, Else: []model.Node{T("e"), rd}}}), T(",")},
+			[]model.Node{over(lits, T("i"), model.EmitIf{If: &model.If{Cond: no, Then: []model.Node{T("f")}, ElseIfs: []model.ElseIf{{Cond: yes, Then: []model.Node{T("x"), rd}}}}}), T(",")},
+			[]model.Node{over(lits, T("i"), eif(yes, T("x"), eif(yes, T("y"), rd))), T(",")},
+			[]model.Node{over(lits, T("i"), over(model.Arr{Els: []model.Expr{model.Lit{V: 1}}}, T("j"), eif(is2, T("x")))), T(",")},
+			[]model.Node{over(lits, model.Code{S: model.LetS{Name: "t", X: rdE}}, model.Emit{X: model.Var{Name: "t"}}), T(",")},
+			[]model.Node{model.Code{S: model.LetS{Name: "f", X: model.FnLit{Params: []string{"a"}, Body: []model.Node{T("("), model.Emit{X: model.Var{Name: "a"}}, T(")")}}}},
+				over(lits, T("i"), model.Emit{X: model.Call{Fn: "f", Args: []model.Expr{rdE}}}), T(",")},
+			[]model.Node{over(lits, T("i"), sif(is2, cnt), T("j")), T(",")},
+		)
 	}
 	if ik.key == "int" && !ik.isMap {
 		// what the inner loop ranges over depends on the outer key: 0, 1, 2, ... elements; then a control statement
@@ -1211,7 +1307,7 @@ func deepProg(shape, d int) []model.Node {
 
 var usesK = regexp.MustCompile(`\bk\b`)
 
-const rule = "iterables (68 kinds): []int, []string, []interface{}, [N]int, *[]int, *[N]string, array literal, map[string]int, map[int]string, map[string]interface{}, custom Iterator, range/between/until, []interface{} / map[string]interface{} / array literals holding nil elements (the loop variable is then bound to nil and still hides the top-level variables v, k, w that every case defines), literal nil, helper returning nil, five non-iterables; and, since the widening round: slices, maps and iterators holding ZERO values (0, \"\", false), maps with bool and uint8 keys and with key 0, maps whose keys do not print (array, struct, pointer keys; interface{} keys 1, \"1\", 1.0, true, int64(1), [1]int{1}; float keys 0, 0.5, +Inf, -Inf, NaN, NaN - iterations are then told apart by their values), named slice and map types, *map and *[]interface{}, slices of typed nil pointers / structs / errors / bytes (bodies never read the element), slices whose elements are themselves iterable ([][]int of lengths 0..3; slice, map, Iterator, array and empty slice mixed) with inner loops ranging over the outer element, loop heads that name the iterable as a struct field, a field through a pointer, a method call, a pointer-method call, a map index, a slice index, a field of an indexed field, a Go function with and without arguments (the body is then the call's trailing block), a parenthesised variable, a hash literal, Iterators with a value receiver / behind a pointer / of kind func, nil slice, nil map, nil interface field, and chan, func, *struct, int64, uint8 as non-iterables; each with 0..5 elements (thorough 0..6), and 17, 64, 65, 130, 257 elements for six kinds. (E) every iterable x length x 45+ fixed bodies (break/continue at the start, middle and end of the body, at the first, second and LAST element, inside a silent if, inside an emitting if after text, two ifs deep, in an else and in ELSE-IF branches (emitting and silent), unconditional with dead code after, in an inner loop only, AFTER a nested loop, after a nested loop over a helper call, after a function literal, after a function holding a loop that was called twice; inner loops that REUSE the outer loop's variable names with the outer values read again afterwards; inner loops whose break depends on the OUTER element, whose iterable is until(k), [v, 5] or the outer element itself; bodies that rebind the loop variables with let) x one-/two-variable form x canonical / compact layout (silent blocks inside one tag: `<% if (c) {⏎break⏎} %>`) ; 5 spellings of the loop head; 6 other sets of names for the variables (keywords as prefixes, capitalised keywords, keywords before a dash, underscores and digits). (T) one parsed template executed two or three times with xs bound to iterables of other kinds and lengths (also a non-iterable, then an iterable). (R) random bodies from the same grammar nested to depth 2, conditions of inner loops also on outer variables, programs with two loops in sequence, a function holding the loop called with xs, ys, xs, the loop in an else-if branch, the same collection ranged over by a loop and by a loop inside it. Oracle: the reference interpreter (body once per element in index order, key = index / map key / running count, continue/break keep what the iteration produced, nil renders nothing, non-iterable is an error). For maps each iteration starts with a key marker; the visiting order is read off the output, checked duplicate-free over the key set, and the model is run in that order. Non-trivial = the body has a control statement or a nested loop, or the iterable is a map / pointer / iterator / nil / non-iterable / one of the widened kinds, or the template is executed more than once; distinct by (iterable, length, template, executions)."
+const rule = "iterables (68 kinds): []int, []string, []interface{}, [N]int, *[]int, *[N]string, array literal, map[string]int, map[int]string, map[string]interface{}, custom Iterator, range/between/until, []interface{} / map[string]interface{} / array literals holding nil elements (the loop variable is then bound to nil and still hides the top-level variables v, k, w that every case defines), literal nil, helper returning nil, five non-iterables; and, since the widening round: slices, maps and iterators holding ZERO values (0, \"\", false), maps with bool and uint8 keys and with key 0, maps whose keys do not print (array, struct, pointer keys; interface{} keys 1, \"1\", 1.0, true, int64(1), [1]int{1}; float keys 0, 0.5, +Inf, -Inf, NaN, NaN - iterations are then told apart by their values), named slice and map types, *map and *[]interface{}, slices of typed nil pointers / structs / errors / bytes (bodies never read the element), slices whose elements are themselves iterable ([][]int of lengths 0..3; slice, map, Iterator, array and empty slice mixed) with inner loops ranging over the outer element, loop heads that name the iterable as a struct field, a field through a pointer, a method call, a pointer-method call, a map index, a slice index, a field of an indexed field, a Go function with and without arguments (the body is then the call's trailing block), a parenthesised variable, a hash literal, Iterators with a value receiver / behind a pointer / of kind func, nil slice, nil map, nil interface field, and chan, func, *struct, int64, uint8 as non-iterables; each with 0..5 elements (thorough 0..6), and 17, 64, 65, 130, 257 elements for six kinds. (E) every iterable x length x 55+ fixed bodies (break/continue at the start, middle and end of the body, at the first, second and LAST element, inside a silent if, inside an emitting if after text, two ifs deep, in an else and in ELSE-IF branches (emitting and silent), unconditional with dead code after, in an inner loop only, AFTER a nested loop, after a nested loop over a helper call, after a function literal, after a function holding a loop that was called twice; inner loops that REUSE the outer loop's variable names with the outer values read again afterwards; inner loops whose break depends on the OUTER element, whose iterable is until(k), [v, 5] or the outer element itself; bodies that rebind the loop variables with let; inner loops over LITERALS whose body reads the outer variable at exactly one place - emitted, in an if / else-if condition, in an else / else-if block, two ifs deep, in a loop inside it, in a let, as a function argument, guarding a continue) x one-/two-variable form x canonical / compact layout (silent blocks inside one tag: `<% if (c) {⏎break⏎} %>`) ; 5 spellings of the loop head; 6 other sets of names for the variables (keywords as prefixes, capitalised keywords, keywords before a dash, underscores and digits). (T) one parsed template executed two or three times with xs bound to iterables of other kinds and lengths (also a non-iterable, then an iterable). (R) random bodies from the same grammar nested to depth 2, conditions of inner loops also on outer variables, programs with two loops in sequence, a function holding the loop called with xs, ys, xs, the loop in an else-if branch, the same collection ranged over by a loop and by a loop inside it. Oracle: the reference interpreter (body once per element in index order, key = index / map key / running count, continue/break keep what the iteration produced, nil renders nothing, non-iterable is an error). For maps each iteration starts with a key marker; the visiting order is read off the output, checked duplicate-free over the key set, and the model is run in that order. Non-trivial = the body has a control statement or a nested loop, or the iterable is a map / pointer / iterator / nil / non-iterable / one of the widened kinds, or the template is executed more than once; distinct by (iterable, length, template, executions)."
 
 func setup(t *testing.T) *vk.Run {
 	r := vk.Start(t, "C08", rule,
@@ -1297,9 +1393,13 @@ func TestProp(t *testing.T) {
 	maxN := r.Pick(5, 6)
 	var cells int64
 	sweepNames := 0
+	var only map[int]bool // nil: every fixed body
 	sweep := func(ki, n int, heads []int) {
 		ik := iterKinds[ki]
-		for _, body := range fixedBodies(ik, n) {
+		for bi, body := range fixedBodies(ik, n) {
+			if only != nil && !only[bi] {
+				continue
+			}
 			for _, two := range []bool{false, true} {
 				if !two && (ik.isMap || usesK.MatchString(model.Printer{}.Nodes(body))) {
 					continue
@@ -1324,15 +1424,17 @@ func TestProp(t *testing.T) {
 			sweep(ki, n, []int{0})
 		}
 	}
-	r.Subspace(fmt.Sprintf("%d iterable kinds x lengths 0..%d x 45-49 fixed bodies (9 nil-tolerant ones for collections holding nil) x one/two loop variables x canonical/compact layout", len(iterKinds), maxN), cells, true)
+	r.Subspace(fmt.Sprintf("%d iterable kinds x lengths 0..%d x 55-59 fixed bodies (9 nil-tolerant ones for collections holding nil) x one/two loop variables x canonical/compact layout", len(iterKinds), maxN), cells, true)
 
 	// long collections (growth of whatever holds the iterations' output, chunking) and the other spellings of the head
 	cells = 0
+	only = map[int]bool{2: true, 3: true, 4: true, 8: true, 12: true, 14: true, 24: true, 27: true, 31: true, 32: true, 33: true, 34: true, 37: true, 40: true}
 	for _, ki := range []int{0, 3, 7, 14, 15, 17} {
 		for _, n := range []int{17, 64, 65, 130, 257} {
 			sweep(ki, n, []int{0})
 		}
 	}
+	only = nil
 	for _, ki := range []int{0, 7, 14, 15, 48} {
 		sweep(ki, 3, []int{1, 2, 3, 4})
 	}
@@ -1343,7 +1445,7 @@ func TestProp(t *testing.T) {
 		}
 		sweepNames = 0
 	}
-	r.Subspace("6 iterable kinds x lengths {17, 64, 65, 130, 257} x fixed bodies; 5 kinds x length 3 x fixed bodies x 4 further spellings of the loop head; 5 kinds x length 3 x fixed bodies x 6 other sets of variable names", cells, true)
+	r.Subspace("6 iterable kinds x lengths {17, 64, 65, 130, 257} x 14 of the fixed bodies; 5 kinds x length 3 x fixed bodies x 4 further spellings of the loop head; 5 kinds x length 3 x fixed bodies x 6 other sets of variable names", cells, true)
 
 	// (T) one parsed template, several executions: every ordered pair of (kind, length in {0, 1, 3}) of the kinds
 	// that bind xs directly and agree on what the bodies may compare, x 6 bodies
